@@ -656,6 +656,18 @@ def r_domain_pure(ctx: RuleCtx, col: Collector):
                     bad = True
                     col.bad(where_of(f), f.rel, line_of(s.stmt), stmt_key(s.stmt),
                             f"{describe_sink(s)} mutates the domain's own self.{at[0][1]} inside DomainDefinition.{name}")
+            # ... and no public method hands out one of its arrays itself (callers shift / scale what they get in place)
+            if not name.startswith("_"):
+                for nd, env in an.state_in.items():
+                    a_ = nd.ast
+                    if isinstance(a_, ast.Return) and a_.value is not None:
+                        v = an.eval(a_.value, dict(env))
+                        held = [x for o in v.orig for x in chain(o) if x[0] == "attr"]
+                        if held and not isinstance(a_.value, ast.Constant):
+                            bad = True
+                            col.bad(where_of(f), f.rel, line_of(a_), stmt_key(a_),
+                                    f"DomainDefinition.{name} returns (a view of) the domain's own self.{held[0][1]}: a caller that "
+                                    f"modifies the result in place (dof offsets, scaling) changes the domain for every later user")
             if not bad:
                 col.ok(where_of(f), f.rel, line_of(f.node), f"DomainDefinition.{name}: read-only on the domain", f"{an.n_sink_sites} mutation sites examined")
     dedupe(col)
